@@ -166,10 +166,41 @@ def norm_ann(d, p):
     return ast.unparse(a) if a is not None else ""
 
 
-def report(col, rule, results, what_prefix=""):
+# Sites where positions are compared with a relative tolerance and the outcome was read and found harmless; one line of reason each.
+# The exemption holds only while the comparison stays conjoined (`and`) with the comparison of the radii.
+TRIAGED_RTOL = {
+    "swcgeom.utils.volumetric_object.VolSphereFrustumConeIntersection._get_volume":
+        "decides `concentric` together with equality of the radii; the callers only pass concentric pairs, so a wrongly true test selects the "
+        "closed form that is right for them anyway",
+    "swcgeom.utils.volumetric_object.VolSphereFrustumConeIntersection.calc_concentric_intersect_volume":
+        "picks which end of the frustum the sphere sits on, together with equality of the radii: when both ends pass (far from the origin, "
+        "radii equal within rtol) either choice gives the same concentric volume up to rounding",
+}
+
+
+def _triaged(col_repo, dd, node, t):
+    if "relative tolerance" not in t[1] or dd.qualname not in TRIAGED_RTOL:
+        return False
+    par = col_repo.parent(node)
+    if not (isinstance(par, ast.BoolOp) and isinstance(par.op, ast.And)):
+        return False
+    others = [v for v in par.values if v is not node]
+    return any(isinstance(v, ast.Call) and ast.unparse(v.func).endswith(("allclose", "isclose")) for v in others)
+
+
+def report(col, rule, results, what_prefix="", repo=None):
     for q, (d, req, got, verdict, why, bads) in results.items():
         what = f"{q.split('.', 2)[-1]}: {show(req)}"
         facts = {"required": show(req), "inferred": show(got)}
+        if repo is not None:
+            kept = []
+            for b in bads:
+                if _triaged(repo, *b):
+                    col.info(rule, b[0].qualname, b[0].loc(b[1]), "position comparison with a relative tolerance (triaged)",
+                             f"`{ast.unparse(b[1])[:70]}`: {TRIAGED_RTOL[b[0].qualname]}", stmt="triaged-rtol")
+                else:
+                    kept.append(b)
+            bads = kept
         if bads and verdict != "bad":
             dd, node, t = bads[0]
             verdict, why = "bad", f"{t[1]} at {dd.loc(node)} (`{ast.unparse(node)[:70]}`)"
